@@ -36,7 +36,7 @@ type c19fs struct {
 	path  []string // walk from the attach point to the listed directory
 	// writable: path is {"top","sub"} on a real directory that may be renamed
 	writable bool
-	clean func()
+	clean    func()
 }
 
 func c19Names(n, nl int) []string {
